@@ -200,7 +200,8 @@ def features_inside(rng, lo, hi, count, n, allow_cites=0):
         e = rng.choice([hi, rng.randint(s + 1, hi)])
         cites = ()
         if allow_cites and rng.random() < 0.6:
-            cites = tuple("i{}".format(rng.randint(1, allow_cites)) for _ in range(rng.randint(1, 2)))
+            cites = tuple("i{}".format(allow_cites if rng.random() < 0.3 else rng.randint(1, allow_cites))
+                          for _ in range(rng.randint(1, 2)))
         out.append(Feat(rng.randrange(1, 8), "u{}".format(rng.randrange(0, 50)), cites,
                         ((s, e, rng.choice([1, -1, 0])),)))
     return out
